@@ -110,6 +110,13 @@ impl Variables {
             .value
     }
 
+    /// Takes the value of the given variable,
+    /// leaving the default value for its name in its place.
+    pub fn take(&mut self, name: Name) -> Variant {
+        let default_value = Self::default_value_for_name(&name);
+        std::mem::replace(self.get_or_create(name), default_value)
+    }
+
     // This is needed only when we're setting the default value for a function
     // that hasn't set a return value. As functions can only return built-in types,
     // the value for unqualified names is not important.
